@@ -36,6 +36,18 @@ def structural(tier: str) -> List[str]:
                         if s not in seen:
                             seen.add(s)
                             out.append(s)
+    # deeper call/loop nests over a reduced statement alphabet (loop bodies that call, callees
+    # that end the program themselves, two subroutines called from loops)
+    o = None
+    for nsubs in (1, 2):
+        for size in (4, 5) if tier != "quick" else (4,):
+            o = core.Opts(kinds=("ret1", "if", "while", "call"), cond_level=0, nsubs=nsubs, pols=("bz", "bnz") if nsubs == 1 else ("bz",),
+                          else_variants=("none",))
+            for prog, k in core.skeletons(size, o):
+                s = core.render(prog, [A.FREE] * k)
+                if s not in seen:
+                    seen.add(s)
+                    out.append(s)
     return out
 
 
@@ -48,7 +60,9 @@ def items(tier: str) -> List[Any]:
             if s not in seen:
                 seen.add(s)
                 out.append(("raw", s))
-    for focus, mode, s in detspaces.detector_spaces(tier):
+    for focus, mode, s in detspaces.detector_spaces(tier, chains=False):
+        if mode == "shuffle":
+            continue
         if focus in ("rekey-to", "group-size-check", "can-close-account") and s not in seen:
             seen.add(s)
             out.append((focus, s))
